@@ -14,6 +14,7 @@ import OsacaVerif.Driver.C10
 import OsacaVerif.Driver.C07
 import OsacaVerif.Driver.Roles
 import OsacaVerif.Driver.Pipeline
+import OsacaVerif.Driver.EndToEnd
 open OsacaVerif OsacaVerif.Proto
 
 /-- one handler per property module; the first that recognises the op answers -/
@@ -32,7 +33,8 @@ def handlers : List (Req → Option String) := [
   Driver.C10.handle,
   Driver.C07.handle,
   Driver.Roles.handle,
-  Driver.Pipeline.handle
+  Driver.Pipeline.handle,
+  Driver.EndToEnd.handle
 ]
 
 def dispatch (r : Req) : String :=
